@@ -14,6 +14,7 @@ package main
 import (
 	"go/token"
 	"go/types"
+	"strings"
 
 	"golang.org/x/tools/go/ssa"
 )
@@ -34,6 +35,18 @@ type c09walker struct {
 	seen     map[ssa.Value]bool
 	seenAddr map[ssa.Value]bool
 	n        int
+	bind     map[*ssa.Parameter][]ssa.Value // receiver of a Read method -> the reader objects it is analysed for
+	depth    int                            // nesting of sub-walkers (bases of field accesses)
+	fdepth   int                            // nesting of field() through copies of whole structs
+	visit    func(ssa.Value)                // called for every value the walk passes
+}
+
+// sub: a walker for the base of a field access (plain identity steps, same receiver bindings).
+func (w *c09walker) sub() *c09walker {
+	s := c09newWalker()
+	s.bind = w.bind
+	s.depth = w.depth + 1
+	return s
 }
 
 const c09maxSites = 12
@@ -41,11 +54,11 @@ const c09maxSites = 12
 // reader wrappers: the result reads (from its first byte) what the arguments deliver.
 var c09readerWrapper = map[string]bool{
 	"bufio.NewReader": true, "bufio.NewReaderSize": true, "io.MultiReader": true, "io.TeeReader": true,
-	"io.LimitReader": true, "io.NopCloser": true, "bufio.NewReadWriter": true,
-}
+	"io.NopCloser": true, "bufio.NewReadWriter": true,
+} // not io.LimitReader / io.NewSectionReader: a truncating view does not deliver the stream
 
 func c09newWalker() *c09walker {
-	return &c09walker{roots: map[c09key]ssa.Value{}, seen: map[ssa.Value]bool{}, seenAddr: map[ssa.Value]bool{}}
+	return &c09walker{roots: map[c09key]ssa.Value{}, seen: map[ssa.Value]bool{}, seenAddr: map[ssa.Value]bool{}, bind: map[*ssa.Parameter][]ssa.Value{}}
 }
 
 // c09roots: the roots of v under identity steps only.
@@ -88,9 +101,15 @@ func (w *c09walker) walk(v ssa.Value) {
 	}
 	w.seen[v] = true
 	w.n++
+	if w.visit != nil {
+		w.visit(v)
+	}
 	if w.stop != nil && w.stop(v) {
 		w.hit = true
 		return
+	}
+	if w.through {
+		w.readerObj(v)
 	}
 	switch x := v.(type) {
 	case *ssa.MakeInterface:
@@ -118,10 +137,12 @@ func (w *c09walker) walk(v ssa.Value) {
 			w.root(x)
 		}
 	case *ssa.Field:
-		if u, ok := x.X.(*ssa.UnOp); ok && u.Op == token.MUL {
-			w.field(u.X, x.X.Type(), x.Field, x)
-		} else {
+		bases := w.structBases(x.X, 0)
+		if len(bases) == 0 {
 			w.rootPath(x)
+		}
+		for _, b := range bases {
+			w.field(b, x.X.Type(), x.Field, x)
 		}
 	case *ssa.Extract:
 		switch t := x.Tuple.(type) {
@@ -182,7 +203,13 @@ func (w *c09walker) param(p *ssa.Parameter, cont func(ssa.Value)) {
 			}
 		}
 	}
-	sites := gSites[fn]
+	if bs := w.bind[p]; len(bs) > 0 {
+		for _, b := range bs {
+			cont(b)
+		}
+		return
+	}
+	sites := c09sitesOf(fn)
 	if idx < 0 || len(sites) == 0 || len(sites) > c09maxSites {
 		w.root(p)
 		return
@@ -258,25 +285,6 @@ func (w *c09walker) load(addr ssa.Value, orig ssa.Value) {
 				}
 			}
 		}
-		if n == 0 && w.through {
-			// a small wrapper struct built in place around a reader (struct{ *bufio.Reader }): its embedded fields
-			if p, ok := a.Type().Underlying().(*types.Pointer); ok {
-				if st, ok := p.Elem().Underlying().(*types.Struct); ok && a.Referrers() != nil {
-					for _, r := range *a.Referrers() {
-						fa, ok := r.(*ssa.FieldAddr)
-						if !ok || fa.Field >= st.NumFields() || !st.Field(fa.Field).Embedded() || fa.Referrers() == nil {
-							continue
-						}
-						for _, r2 := range *fa.Referrers() {
-							if sto, ok := r2.(*ssa.Store); ok && sto.Addr == fa {
-								n++
-								w.walk(sto.Val)
-							}
-						}
-					}
-				}
-			}
-		}
 		if n == 0 {
 			w.root(a)
 		}
@@ -299,38 +307,296 @@ func (w *c09walker) load(addr ssa.Value, orig ssa.Value) {
 	}
 }
 
-// field: the values stored in field fld of the struct(s) base points to, when those are built locally.
+// field: the values stored in field fld of the struct(s) base points to: by the function that built the struct (stores
+// through the allocation itself) and by any other function of the repository that stores that field through a pointer
+// to the same object (a method `c.hello = data` called on it, a constructor that fills the struct in steps).
 func (w *c09walker) field(base ssa.Value, baseType types.Type, fld int, orig ssa.Value) {
 	if w.through && namedIs(baseType, "bufio.ReadWriter") && fieldName(baseType, fld) == "Reader" {
 		w.walk(base) // the buffered reader of a hijacked connection
 		return
 	}
-	sub := c09newWalker()
+	sub := w.sub()
 	sub.walk(base)
 	if _, isAlloc := base.(*ssa.Alloc); isAlloc {
 		sub.root(base)
 	}
 	found := false
+	done := map[*ssa.Store]bool{}
 	for _, rv := range sub.roots {
 		al, ok := rv.(*ssa.Alloc)
 		if !ok || al.Referrers() == nil {
 			continue
 		}
 		for _, r := range *al.Referrers() {
+			// the cell holds a copy of a whole struct (a value receiver spilled to a local): the field of the original
+			if st, ok := r.(*ssa.Store); ok && st.Addr == ssa.Value(al) && w.fdepth < 3 {
+				if _, isStruct := st.Val.Type().Underlying().(*types.Struct); isStruct {
+					for _, nb := range w.structBases(st.Val, 0) {
+						if nb != base {
+							found = true
+							w.fdepth++
+							w.field(nb, baseType, fld, orig)
+							w.fdepth--
+						}
+					}
+				}
+			}
 			fa, ok := r.(*ssa.FieldAddr)
 			if !ok || fa.X != al || fa.Field != fld || fa.Referrers() == nil {
 				continue
 			}
 			for _, r2 := range *fa.Referrers() {
-				if st, ok := r2.(*ssa.Store); ok && st.Addr == fa {
+				if st, ok := r2.(*ssa.Store); ok && st.Addr == fa && !done[st] {
+					done[st] = true
 					found = true
 					w.walk(st.Val)
 				}
 			}
 		}
 	}
+	if fv := c09fieldVar(baseType, fld); fv != nil && w.depth < 4 {
+		for _, st := range c09storesOf(fv) {
+			if done[st] {
+				continue
+			}
+			fa := st.Addr.(*ssa.FieldAddr)
+			if fa.X != base {
+				o := w.sub()
+				o.walk(fa.X)
+				if _, isAlloc := fa.X.(*ssa.Alloc); isAlloc {
+					o.root(fa.X)
+				}
+				if !c09meet(o.roots, sub.roots) {
+					continue
+				}
+			}
+			done[st] = true
+			found = true
+			w.walk(st.Val)
+		}
+	}
 	if !found {
 		w.rootPath(orig)
+	}
+}
+
+// c09fieldVar: the object of field idx of the struct type t (through a pointer).
+func c09fieldVar(t types.Type, idx int) *types.Var {
+	if t == nil {
+		return nil
+	}
+	if p, ok := t.Underlying().(*types.Pointer); ok {
+		t = p.Elem()
+	}
+	if s, ok := t.Underlying().(*types.Struct); ok && idx < s.NumFields() {
+		return s.Field(idx)
+	}
+	return nil
+}
+
+// every store to a struct field in the repository, by field object (built on first use after c09init)
+var (
+	c09fns      []*ssa.Function
+	c09fieldIdx map[*types.Var][]*ssa.Store
+	c09dynSites map[*ssa.Function][]ssa.CallInstruction
+)
+
+func c09init(c *Ctx) {
+	c09fns = c.AllFns
+	c09fieldIdx = nil
+	c09dynSites = nil
+}
+
+// c09sitesOf: the call sites of fn: the static ones, and the calls through a function value that visibly denotes fn
+// (a closure kept in a local variable that is captured by another closure and called there).
+func c09sitesOf(fn *ssa.Function) []ssa.CallInstruction {
+	if c09dynSites == nil {
+		c09dynSites = map[*ssa.Function][]ssa.CallInstruction{}
+		for _, f := range c09fns {
+			eachInstr(f, func(i ssa.Instruction) {
+				ci, ok := i.(ssa.CallInstruction)
+				if !ok || ci.Common().IsInvoke() || ci.Common().StaticCallee() != nil {
+					return
+				}
+				if _, isBuiltin := ci.Common().Value.(*ssa.Builtin); isBuiltin {
+					return
+				}
+				for _, g := range funcsOf(ci.Common().Value) {
+					if len(g.Params) == len(ci.Common().Args) { // not a bound method value (its receiver is not an argument)
+						c09dynSites[g] = append(c09dynSites[g], ci)
+					}
+				}
+			})
+		}
+	}
+	if d := c09dynSites[fn]; len(d) > 0 {
+		return append(append([]ssa.CallInstruction{}, gSites[fn]...), d...)
+	}
+	return gSites[fn]
+}
+
+func c09storesOf(fv *types.Var) []*ssa.Store {
+	if c09fieldIdx == nil {
+		c09fieldIdx = map[*types.Var][]*ssa.Store{}
+		for _, f := range c09fns {
+			eachInstr(f, func(i ssa.Instruction) {
+				st, ok := i.(*ssa.Store)
+				if !ok {
+					return
+				}
+				if fa, ok := st.Addr.(*ssa.FieldAddr); ok {
+					if v := c09fieldVar(fa.X.Type(), fa.Field); v != nil {
+						c09fieldIdx[v] = append(c09fieldIdx[v], st)
+					}
+				}
+			})
+		}
+	}
+	return c09fieldIdx[fv]
+}
+
+// structBases: the addresses of the struct(s) a struct VALUE was loaded from: `*p`, a value receiver (bound to the
+// reader object under analysis, or what the static callers pass), a merge of those.
+func (w *c09walker) structBases(v ssa.Value, depth int) []ssa.Value {
+	if depth > 4 {
+		return nil
+	}
+	var out []ssa.Value
+	from := func(b ssa.Value) {
+		if _, isPtr := b.Type().Underlying().(*types.Pointer); isPtr {
+			out = append(out, b) // a value-receiver method reached through a pointer to the object
+		} else {
+			out = append(out, w.structBases(b, depth+1)...)
+		}
+	}
+	switch x := v.(type) {
+	case *ssa.UnOp:
+		if x.Op == token.MUL {
+			out = append(out, x.X)
+		}
+	case *ssa.Parameter:
+		if bs := w.bind[x]; len(bs) > 0 {
+			for _, b := range bs {
+				from(b)
+			}
+			break
+		}
+		fn := x.Parent()
+		sites := c09sitesOf(fn)
+		if fn == nil || len(sites) == 0 || len(sites) > c09maxSites {
+			break
+		}
+		for k, q := range fn.Params {
+			if q != x {
+				continue
+			}
+			for _, s := range sites {
+				if cc := s.Common(); k < len(cc.Args) {
+					from(cc.Args[k])
+				}
+			}
+		}
+	case *ssa.Phi:
+		for _, e := range x.Edges {
+			out = append(out, w.structBases(e, depth+1)...)
+		}
+	case *ssa.MakeInterface: // a value receiver bound to the interface value the method was invoked on
+		from(x.X)
+	case *ssa.ChangeInterface:
+		from(x.X)
+	}
+	return out
+}
+
+// ---- reader objects: structs that ARE readers -------------------------------------------------------------------
+
+// c09innerSources: what a Read method reads from: the receivers of the Read calls in its body (and closures), the
+// sources of io.Copy / io.ReadFull there.
+func c09innerSources(m *ssa.Function) []ssa.Value {
+	var out []ssa.Value
+	for _, f := range withAnon(m) {
+		eachInstr(f, func(i ssa.Instruction) {
+			call, ok := i.(*ssa.Call)
+			if !ok {
+				return
+			}
+			n := calleeName(&call.Call)
+			switch {
+			case c09copyFns[n] && len(call.Call.Args) >= 2:
+				out = append(out, call.Call.Args[1])
+			case (n == "io.ReadFull" || n == "io.ReadAtLeast") && len(call.Call.Args) >= 1:
+				out = append(out, call.Call.Args[0])
+			default:
+				if recv, _, ok := c09ioCall(&call.Call, "Read"); ok {
+					out = append(out, recv)
+				} else if recv, _, ok := c09ioCall(&call.Call, "WriteTo"); ok {
+					out = append(out, recv)
+				}
+			}
+		})
+	}
+	return out
+}
+
+// readerObj: v is (a pointer to) a struct of the repository that is itself an io.Reader - the "buffered connection"
+// idiom `type T struct{ net.Conn; r *bufio.Reader }` with `func (c *T) Read(b []byte) (int, error) { return c.r.Read(b) }`,
+// or a struct that embeds its reader. Copying from v copies from what its Read method reads: an explicitly declared
+// Read is looked into (its receiver bound to v), a promoted Read leads to the embedded field it is promoted from.
+// The walk continues with those values; v itself stays a root as before.
+func (w *c09walker) readerObj(v ssa.Value) {
+	if w.depth > 4 || v.Type() == nil {
+		return
+	}
+	t := v.Type()
+	var base ssa.Value
+	st := t
+	if p, ok := t.Underlying().(*types.Pointer); ok {
+		base, st = v, p.Elem()
+	} else if u, ok := v.(*ssa.UnOp); ok && u.Op == token.MUL {
+		base = u.X
+	}
+	if _, isStruct := st.Underlying().(*types.Struct); !isStruct {
+		return
+	}
+	if n, ok := types.Unalias(st).(*types.Named); ok && (n.Obj().Pkg() == nil || !strings.HasPrefix(n.Obj().Pkg().Path(), repoMod)) {
+		return // a reader of the standard library (bufio.Reader ...) is a reader, not a wrapper to look into
+	}
+	fn := v.Parent()
+	if fn == nil || fn.Prog == nil {
+		return
+	}
+	sel := fn.Prog.MethodSets.MethodSet(t).Lookup(nil, "Read")
+	if sel == nil {
+		return
+	}
+	idx := sel.Index()
+	switch {
+	case len(idx) == 1:
+		obj, _ := sel.Obj().(*types.Func)
+		if obj == nil {
+			return
+		}
+		m := fn.Prog.FuncValue(obj)
+		if m == nil || len(m.Blocks) == 0 || len(m.Params) == 0 || !isRepoFn(m) {
+			return
+		}
+		recv := m.Params[0]
+		for _, b := range w.bind[recv] {
+			if b == v {
+				return
+			}
+		}
+		w.bind[recv] = append(w.bind[recv], v)
+		for _, src := range c09innerSources(m) {
+			// walked again for every object the method is analysed for
+			delete(w.seen, src)
+			if u, ok := src.(*ssa.UnOp); ok && u.Op == token.MUL {
+				delete(w.seenAddr, u.X)
+			}
+			w.walk(src)
+		}
+	case len(idx) == 2 && base != nil:
+		w.field(base, st, idx[0], v)
 	}
 }
 
